@@ -193,6 +193,39 @@ def check_waits(ctx, rid, cls, cvfield, mutex, pred_fields):
     return ws
 
 
+def _waits_without_baton(fb, rec, cvfield, pred_fields):
+    """location of a wait on this.<cvfield> after which no notify on the same condition variable follows, or None"""
+    n = 0
+    for g in fb.functions(rec=rec):
+        ns = cv_notifies(g, cvfield)
+        for st in g.stmts.values():
+            if not (st["k"] == "CXXMemberCallExpr" and (st.get("callee") or {}).get("name") in WAITS and
+                    path(g, g.s(st.get("obj"))) == "this." + cvfield and g.pos_of(st)):
+                continue
+            n += 1
+            wp = tuple(g.pos_of(st))
+            after = [tuple(g.pos_of(x)) for x in ns if g.pos_of(x) and g.reach_avoiding(wp, tuple(g.pos_of(x)), [])]
+            if not after:
+                return g.loc(st)
+            if g.exits_avoiding(wp, after):
+                # a way around the notify: only through a test of the wait's result or of the predicate
+                okb = False
+                for b, blk in g.blocks.items():
+                    if blk.term and blk.term.get("cond") and len(blk.succs) == 2 and any(p[0] in [s for s in blk.succs if s is not None] for p in after):
+                        cond = g.s(blk.term["cond"])
+                        names = {d["m"]["name"] for d in g.descendants(cond) if d["k"] == "MemberExpr" and d["m"].get("is_field")} | \
+                                ({cond["m"]["name"]} if cond["k"] == "MemberExpr" and cond["m"].get("is_field") else set())
+                        locs = [d for d in [cond] + list(g.descendants(cond)) if d["k"] == "DeclRefExpr" and d["d"].get("k") == "local"]
+                        from_wait = all(any(x["id"] == st["id"] for s_ in g.stmts.values() if s_["k"] == "DeclStmt" for dd in s_["decls"]
+                                            if dd["id"] == l_["d"].get("id") and dd.get("init") for x in [g.s(dd["init"])] + list(g.descendants(g.s(dd["init"]))))
+                                        for l_ in locs)
+                        if (names <= set(pred_fields)) and from_wait and (names or locs):
+                            okb = True
+                if not okb:
+                    return g.loc(st)
+    return None if n else "?"
+
+
 def _uncounted_waits(fb, rec, cvfield, counters):
     """None if every wait on this.<cvfield> in class `rec` is dominated by an increment of each field in `counters`;
     otherwise the location of a wait that is not"""
@@ -216,7 +249,13 @@ def notify_follows(f, write_pos, cvfield, pred_fields, cls, require_all=True, la
     if not ns:
         return False, "no notify on %s in %s" % (cvfield, f.name)
     if require_all and any(n["callee"]["name"] == "notify_one" for n in ns):
-        return False, "notify_one wakes a single waiter; every waiter must be released"
+        # waking ONE waiter releases all of them only if each released waiter wakes the next (baton passing): every wait on
+        # this condition variable, in every member, is followed by a notify on it - skipped at most on a branch that tests
+        # the wait's own outcome / the predicate (a wait that timed out has no wake-up to pass on)
+        unpassed = _waits_without_baton(fb, f.rec, cvfield, pred_fields) if fb is not None else "?"
+        if unpassed:
+            return False, "notify_one wakes a single waiter; every waiter must be released" + (
+                "" if unpassed == "?" else " (the waiter at %s does not pass the wake-up on)" % unpassed)
     npos = [tuple(f.pos_of(n)) for n in ns if f.pos_of(n)]
     # reachable & not before
     if not any(f.reach_avoiding(write_pos, p, []) for p in npos):
